@@ -82,6 +82,15 @@ PrimVals == { Obj(<<"b", "f">>, <<Bool(TRUE), N(18)>>), Obj(<<"b", "n">>, <<Bool
               Obj(<<"b">>, <<St(<<"x">>)>>), Obj(<<"f">>, <<St(<<"x">>)>>), Obj(<<"n">>, <<N(18)>>), Obj(<<"b">>, <<N(4)>>) }
 (* text/csv bodies in canonical form (no quoting, every record ended by a line feed): the decoded string is the text *)
 CsvVals == { St(<<"a", ",", "b", "\n">>), St(<<"a", "\n", "b", "\n">>), St(<<"a", "\n">>) }
+(* bodies for S10: arrays of each primitive type, of one item and of several, an item that is not of its type *)
+ArrVals == { Obj(<<"l">>, <<Arr(<<N(4), N(8), N(12)>>)>>), Obj(<<"l">>, <<Arr(<<N(4)>>)>>), Obj(<<"ls">>, <<Arr(<<St(<<"a">>), St(<<"b">>)>>)>>),
+             Obj(<<"ls">>, <<Arr(<<St(<<"c">>)>>)>>), Obj(<<"ls">>, <<Arr(<<St(<<"a">>), St(<<"z">>)>>)>>),            \* z is not in the items' enum
+             Obj(<<"lb">>, <<Arr(<<Bool(TRUE), Bool(FALSE)>>)>>), Obj(<<"lf">>, <<Arr(<<N(6), N(8)>>)>>),
+             Obj(<<"l", "ls">>, <<Arr(<<N(4), N(8)>>), Arr(<<St(<<"a">>), St(<<"b">>), St(<<"c">>)>>)>>),
+             Obj(<<"l">>, <<Arr(<<N(4), St(<<"x">>)>>)>>), Obj(<<"lf">>, <<Arr(<<St(<<"x">>), N(8)>>)>>) }
+(* what may follow a complete JSON value without the text being JSON any more: every kind of token, directly or after white space *)
+JsonTails == {"}", "]", ",", ":", "\"s\"", "1", "true", "null", "x", "{", "[", "}}", "] x"}
+JsonSeps == {"", " ", "\n"}
 (* texts that are not an encoding of any value in the syntax of their media type *)
 MalKinds == {<<"json", "truncated">>, <<"json", "trailing">>, <<"json", "two">>, <<"json", "bareword">>, <<"json", "trailcomma">>, <<"json", "empty_ws">>,
              <<"form", "badpct">>, <<"form", "badpct_end">>,
@@ -146,6 +155,14 @@ Init ==
    \* text/csv
    \/ \E sc \in {"T3", "T4", "T7"}, v \in CsvVals :
         case = [part |-> "decode", family |-> "csv", schema |-> sc, v |-> v, excludeRO |-> FALSE, enc |-> "default", clen |-> "known", setDefaults |-> FALSE]
+   \* the Encoding Object of an array property of a urlencoded body: style alone / explode alone / both / neither, every style x explode the media
+   \* type supports, for arrays of every primitive type.  The wire form (one field per item / one joined field) is the one BodyCheck derives.
+   \/ \E st \in {"none", "form", "spaceDelimited", "pipeDelimited"}, ex \in {"none", "true", "false"}, v \in ArrVals :
+        case = [part |-> "decode", family |-> "form", schema |-> "S10", v |-> v, excludeRO |-> FALSE, enc |-> "obj", clen |-> "known", setDefaults |-> FALSE,
+                encStyle |-> st, encExplode |-> ex, wireExplode |-> EffExplode(st, ex), wireDelim |-> StyleDelim(st)]
+   \* a complete JSON value (an object / an array) followed by more text: not JSON, whatever follows and however it is separated
+   \/ \E lead \in {"obj", "arr"}, sep \in JsonSeps, tail \in JsonTails :
+        case = [part |-> "malformed", family |-> "json", kind |-> "tail", schema |-> (IF lead = "obj" THEN "S2" ELSE "E"), lead |-> lead, sep |-> sep, tail |-> tail]
    \* texts that encode nothing: rejected whatever the schema (S2: the object schema; E: the empty schema)
    \/ \E mk \in MalKinds, sc \in {"S2", "E"} :
         /\ (mk[1] \in {"form", "multipart"} => sc = "S2")
